@@ -213,7 +213,7 @@ def _f2(clause: str, case: Any) -> bool:
     cands = {(c["p"], c["a"], c["b"], c["e"], c["s"]) for c in O._merge_candidates(case["hits"], case["lens"])  # pylint: disable=protected-access
              if c["valid"]}
     bad = [o for o in out if tuple(o) not in cands]
-    return bool(bad) and len({tuple(o) for o in out}) == len(out) and all(O.r_shrunk_merge(case["hits"], o) for o in bad)
+    return bool(bad) and all(O.r_shrunk_merge(case["hits"], o) for o in bad)
 
 
 def _drop_reasons(clause: str, case: Any) -> Optional[list[set[str]]]:
@@ -753,23 +753,26 @@ def shards(tier: str, seed: int) -> list:
         out += split("F", "f0", None, 1, "all") + split("F", "f1", None, 3, "all") + split("F", "f2", None, 1, "all")
         out += [{"fam": "K"}]
         return out
-    # thorough
+    # thorough (cheap exhaustive families and the sampled one first: a truncated run starves the big ones last)
     jobs = [{"fam": "R", "cfg": "r0", "sizes": [1, 2, 3]}, {"fam": "R", "cfg": "r2", "sizes": [1, 2, 3]},
             {"fam": "H", "cfg": "h3", "sizes": [1, 2, 3]}, {"fam": "H", "cfg": "h4", "sizes": [1, 2, 3]},
             {"fam": "F", "cfg": "f0"}, {"fam": "F", "cfg": "f1"}]
     out += [{"fam": "S", "jobs": jobs, "chunk": i, "of": 16, "seeds": list(range(16))} for i in range(16)]
-    out += split("R", "r0s", [4], 24, "all") + split("R", "r1s", [4], 10, "some") + split("R", "r2s", [4], 10, "some")
+    out += [{"fam": "K"}]
+    out += split("F", "f0", [1, 2, 3, 4], 4, "all") + split("F", "f1", [1, 2, 3, 4, 5], 8, "all")
+    out += split("F", "f2", [1, 2, 3, 4], 1, "all")
+    for cfg in ("h3", "h4"):
+        out += split("H", cfg, [1, 2, 3], 4, "all")
+    out += split("H", "h2", [1, 2, 3, 4], 2, "all")
+    out += [{"fam": "X", "count": 20000} for _ in range(16)]
     for cfg in ("r0", "r1", "r2"):
         out += split("R", cfg, [1, 2, 3], 6, "all")
-    out += split("R", "r5", [1, 2, 3, 4], 12, "some")
     for cfg in ("q1", "q2", "q3", "q5"):
         out += split("R", cfg, [1, 2, 3, 4], 2, "all")
     for cfg in ("h3", "h4"):
-        out += split("H", cfg, [1, 2, 3], 4, "all") + split("H", cfg, [4], 12, "some")
-    out += split("H", "h2", [1, 2, 3, 4], 2, "all")
-    out += split("F", "f0", [1, 2, 3, 4], 4, "all") + split("F", "f1", [1, 2, 3, 4, 5], 8, "all")
-    out += split("F", "f2", [1, 2, 3, 4], 1, "all") + [{"fam": "K"}]
-    out += [{"fam": "X", "count": 40000} for _ in range(16)]
+        out += split("H", cfg, [4], 12, "some")
+    out += split("R", "r5", [1, 2, 3, 4], 12, "some")
+    out += split("R", "r1s", [4], 10, "some") + split("R", "r2s", [4], 10, "some") + split("R", "r0s", [4], 24, "all")
     return out
 
 
